@@ -201,7 +201,7 @@ Section Refinement.
       + split; [reflexivity|]. cbn. destruct hk; [assumption|apply key_index_bound; assumption].
     - (* createif *)
       unfold do_create, hk_ok in *. destruct s as [[tb|] k hk od]; cbn [sdb stk shk sord spec_step] in *.
-      + split; [reflexivity|assumption].
+      + split; [reflexivity|]. cbn. destruct hk; [assumption|apply key_index_bound; assumption].
       + split; [reflexivity|]. cbn. destruct hk; [assumption|apply key_index_bound; assumption].
     - (* insert *)
       unfold run_stmt, hk_ok in *. destruct s as [[tb|] k hk od]; cbn [sdb stk shk sord spec_step exec] in *.
@@ -298,3 +298,11 @@ Lemma old_refuted_nilfirst :
   forallb (op_valid demo_cols) witness_nilfirst = true /\
   results (run_old wsem_ref osem_ref demo_cols witness_nilfirst) <> results (spec_run demo_cols witness_nilfirst).
 Proof. split; [vm_compute; reflexivity|]. split; [vm_compute; reflexivity|]. vm_compute. intros H. discriminate H. Qed.
+
+(* before 704512eb: a record that is there is "not found" by ReadOne on the handle of a reopened database *)
+Definition witness_reopen_key : list op :=
+  [OCreateIf; OInsert rec1; OReopen; OCreateIf; OReadOne (VS u1)].
+Lemma old_refuted_reopen_key :
+  history_wf demo_cols witness_reopen_key = true /\
+  results (run_nokey wsem_ref osem_ref demo_cols witness_reopen_key) <> results (spec_run demo_cols witness_reopen_key).
+Proof. split; [vm_compute; reflexivity|]. vm_compute. intros H. discriminate H. Qed.
